@@ -13,6 +13,10 @@ if "--runs" in args:
 also = None
 if "--also" in args:      # run these additional checks against every patch (cross-detection)
     i = args.index("--also"); also = args[i + 1].split(","); del args[i:i + 2]
+vseed = None
+if "--seed" in args:      # VERIF_SEED for the checks (detection must not hinge on one batch)
+    i = args.index("--seed"); vseed = args[i + 1]; del args[i:i + 2]
+    os.environ["VERIF_SEED"] = vseed
 pids = [a.upper() for a in args]
 items = []
 for f in sorted(glob.glob(os.path.join(HERE, "selftest", "patches", "*.diff"))):
@@ -39,7 +43,7 @@ for pid, name, path in items:
                                                        ";".join(res[-1]["oracles"])[:150]), flush=True)
         for f in glob.glob(os.path.join(HERE, "replays", "%s-*.json" % chk)):
             os.remove(f)
-json.dump(res, open(os.path.join(HERE, "selftest", "sensitivity.json"), "w"), indent=1)
+json.dump(res, open(os.path.join(HERE, "selftest", "sensitivity%s.json" % ("" if vseed is None else "_seed" + vseed)), "w"), indent=1)
 missed = [r for r in res if not r["caught"] and r["check"] == r["property"]]
 print("SENSITIVITY %d patches, %d caught by their own property's check, %d missed" % (
     len([r for r in res if r["check"] == r["property"]]), len([r for r in res if r["check"] == r["property"] and r["caught"]]), len(missed)))
